@@ -76,13 +76,61 @@ pub struct ShardResult {
 }
 
 impl ShardResult {
+    pub fn eval(&mut self) {
+        self.evaluations += 1;
+    }
+    pub fn nontrivial(&mut self, h: u64) {
+        self.nontrivial.insert(h);
+    }
+    pub fn inconclusive(&mut self, reason: &str) {
+        *self.inconclusive.entry(reason.to_string()).or_default() += 1;
+    }
+    pub fn count(&mut self, key: &str, n: u64) {
+        *self.counters.entry(key.to_string()).or_default() += n;
+    }
+    pub fn set_add(&mut self, key: &str, v: &str) {
+        let s = self.sets.entry(key.to_string()).or_default();
+        if s.len() < 2000 {
+            s.insert(v.to_string());
+        }
+    }
+    pub fn min(&mut self, key: &str, v: i64) {
+        let e = self.mins.entry(key.to_string()).or_insert(v);
+        *e = (*e).min(v);
+    }
+    pub fn sample(&mut self, v: Value) {
+        if self.samples.len() < 4 {
+            self.samples.push(v);
+        }
+    }
+    pub fn harness_error(&mut self, e: String) {
+        if self.harness_errors.len() < 20 {
+            self.harness_errors.push(e);
+        }
+    }
+    pub fn violation(&mut self, sig: &str, desc: &str, replay: Value) {
+        self.count("violations_seen", 1);
+        let same = self.violations.iter().filter(|v| v.sig == sig).count();
+        if same < 3 && self.violations.len() < 50 {
+            self.violations.push(Violation {
+                sig: sig.to_string(),
+                desc: desc.chars().take(2000).collect(),
+                replay,
+            });
+        }
+    }
     pub fn merge(&mut self, other: ShardResult) {
         self.evaluations += other.evaluations;
         self.nontrivial.extend(other.nontrivial);
         for (k, v) in other.inconclusive {
             *self.inconclusive.entry(k).or_default() += v;
         }
-        self.violations.extend(other.violations);
+        for v in other.violations {
+            let same = self.violations.iter().filter(|x| x.sig == v.sig).count();
+            if same < 3 && self.violations.len() < 200 {
+                self.violations.push(v);
+            }
+        }
         for s in other.samples {
             if self.samples.len() < 8 {
                 self.samples.push(s);
@@ -115,7 +163,6 @@ pub struct Ctx {
     pub res: ShardResult,
     pub started: Instant,
     last_flush: Instant,
-    max_violations: usize,
 }
 
 impl Ctx {
@@ -146,7 +193,6 @@ impl Ctx {
             res: ShardResult::default(),
             started: Instant::now(),
             last_flush: Instant::now(),
-            max_violations: 50,
         }
     }
 
@@ -171,46 +217,38 @@ impl Ctx {
     }
 
     pub fn eval(&mut self) {
-        self.res.evaluations += 1;
+        self.res.eval();
     }
     pub fn nontrivial(&mut self, h: u64) {
-        self.res.nontrivial.insert(h);
+        self.res.nontrivial(h);
     }
     pub fn inconclusive(&mut self, reason: &str) {
-        *self.res.inconclusive.entry(reason.to_string()).or_default() += 1;
+        self.res.inconclusive(reason);
     }
     pub fn count(&mut self, key: &str, n: u64) {
-        *self.res.counters.entry(key.to_string()).or_default() += n;
+        self.res.count(key, n);
     }
     pub fn set_add(&mut self, key: &str, v: &str) {
-        let s = self.res.sets.entry(key.to_string()).or_default();
-        if s.len() < 2000 {
-            s.insert(v.to_string());
-        }
+        self.res.set_add(key, v);
     }
     pub fn min(&mut self, key: &str, v: i64) {
-        let e = self.res.mins.entry(key.to_string()).or_insert(v);
-        *e = (*e).min(v);
+        self.res.min(key, v);
     }
     pub fn sample(&mut self, v: Value) {
-        if self.res.samples.len() < 4 {
-            self.res.samples.push(v);
-        }
+        self.res.sample(v);
     }
     pub fn harness_error(&mut self, e: String) {
-        if self.res.harness_errors.len() < 20 {
-            self.res.harness_errors.push(e);
-        }
+        self.res.harness_error(e);
     }
     pub fn violation(&mut self, sig: &str, desc: &str, replay: Value) {
-        self.count("violations_seen", 1);
-        let same = self.res.violations.iter().filter(|v| v.sig == sig).count();
-        if same < 3 && self.res.violations.len() < self.max_violations {
-            self.res.violations.push(Violation {
-                sig: sig.to_string(),
-                desc: desc.chars().take(2000).collect(),
-                replay,
-            });
+        self.res.violation(sig, desc, replay);
+        self.flush();
+    }
+    /// Merges the observations of a parallel task.
+    pub fn absorb(&mut self, other: ShardResult) {
+        let had = self.res.violations.len();
+        self.res.merge(other);
+        if self.res.violations.len() != had {
             self.flush();
         }
     }
@@ -251,6 +289,8 @@ pub struct Spec {
     pub assumptions: &'static [&'static str],
     /// Timeout of one worker in seconds (watchdog; expiry is inconclusive).
     pub worker_timeout_s: fn(Tier) -> u64,
+    /// Number of rayon threads inside one worker.
+    pub rayon_threads: usize,
 }
 
 #[derive(Clone, Debug)]
